@@ -47,6 +47,13 @@ func checkC10Bind(c *Ctx, n int) {
 			}
 		}
 		cs.Opts |= flags.PassDoubleDash
+		cs.Build = append(cs.Build, BuildOp{Kind: "setcmd", Target: 1, Attr: "subopt", Vals: []string{"1"}})
+		// PassAfterNonOption: from the first word on nothing is an option (nor the terminator) any more
+		after := r.Intn(4) == 0
+		cs.Opts &^= flags.PassAfterNonOption
+		if after {
+			cs.Opts |= flags.PassAfterNonOption
+		}
 		real, _ := BuildReal(cs)
 		if real.dead {
 			continue
@@ -110,6 +117,21 @@ func checkC10Bind(c *Ctx, n int) {
 		terminatorAt := -1
 		if r.Intn(2) == 0 {
 			terminatorAt = r.Intn(k + 1)
+			if after {
+				terminatorAt = 0
+			}
+		}
+		// a word that spells a subcommand of the active command is still a word while fields are unfilled
+		var subNames []string
+		for _, x := range active.Commands() {
+			if !strings.HasPrefix(x.Name, "-") && !strings.Contains(x.Name, "%") && x.Name != "" {
+				subNames = append(subNames, x.Name)
+			}
+			for _, a := range x.Aliases {
+				if !strings.HasPrefix(a, "-") && !strings.Contains(a, "%") && a != "" {
+					subNames = append(subNames, a)
+				}
+			}
 		}
 		for j := 0; j <= k; j++ {
 			if j == terminatorAt {
@@ -118,10 +140,15 @@ func checkC10Bind(c *Ctx, n int) {
 			if j == k {
 				break
 			}
-			if (terminatorAt < 0 || j < terminatorAt) && len(flagsInScope) > 0 && r.Intn(3) == 0 {
+			if (terminatorAt < 0 || j < terminatorAt) && (!after || j == 0) && len(flagsInScope) > 0 && r.Intn(3) == 0 {
 				argv = append(argv, flagsInScope[r.Intn(len(flagsInScope))])
 			}
 			words[j] = fmt.Sprint(11 + j)
+			// (only while a field still takes the word: beyond the fields such a word is a command)
+			lastIsSlice := reflectKindOfArg(real, args[len(args)-1]) == reflect.Slice
+			if len(subNames) > 0 && r.Intn(4) == 0 && (j < len(args) || lastIsSlice) {
+				words[j] = subNames[r.Intn(len(subNames))]
+			}
 			// after the terminator anything is a word, option-looking ones included
 			if terminatorAt >= 0 && j >= terminatorAt && r.Intn(3) == 0 {
 				words[j] = "-" + words[j]
@@ -140,10 +167,23 @@ func checkC10Bind(c *Ctx, n int) {
 				obs = o
 			}
 			if obs.panic != "" || obs.errKind != "ok" {
+				// with string fields only there is nothing a word could fail to convert to
+				cr.Real.register()
+				allStr := true
+				for _, a := range args {
+					if fr, ok := cr.Real.fields[a.Name]; !ok || (fr.code != "str" && fr.code != "Lstr") {
+						allStr = false
+					}
+				}
+				if allStr {
+					c.Check("words-bind-to-fields-in-declaration-order", false, "C10:binding", map[string]interface{}{"case": cs.Description, "argv": argv, "active_command": active.Name, "words": words, "case_file": c.saveCase(cr)},
+						fmt.Sprintf("%s %s type %d %q", obs.panic, obs.errKind, obs.errType, obs.errMsg), "success: every positional field is a string")
+					return
+				}
 				c.Class("c10/bind: parse did not succeed (not judged)")
 				return
 			}
-			c.Class(fmt.Sprintf("c10/bind: judged words=%d fields=%d terminator=%v", k, len(args), terminatorAt >= 0))
+			c.Class(fmt.Sprintf("c10/bind: judged words=%d fields=%d terminator=%v afternonoption=%v", k, len(args), terminatorAt >= 0, after))
 			cr.Real.register()
 			in := map[string]interface{}{"case": cs.Description, "argv": argv, "active_command": active.Name, "words": words}
 			var fieldNames []string
@@ -180,7 +220,11 @@ func checkC10Bind(c *Ctx, n int) {
 				}
 				if used < k {
 					got := fmt.Sprint(fr.val.Interface())
-					if got != words[used] {
+					if fr.code == "c0" {
+						// (the harness' Upper type stores the text in upper case)
+						got = strings.ToLower(got)
+					}
+					if got != strings.ToLower(words[used]) && got != words[used] {
 						fail(fmt.Sprintf("%s = %q", a.Name, got), fmt.Sprintf("%s = %q (word %d)", a.Name, words[used], used+1))
 						return
 					}
